@@ -79,6 +79,37 @@ Theorem C18_timeout_unparse_negative_overflow_refuted :
 Proof. exact timeout_unparse_negative_overflow_refuted. Qed.
 Print Assumptions C18_timeout_unparse_negative_overflow_refuted.
 
+(* every value parse returns is a float of the model (at most 53 significant bits, below 2^1024),
+   so the round trip holds starting from any string parse accepts, and for the non-negative
+   ones unparse does return *)
+Theorem C18_timeout_parse_valid : forall s v, timeout_parse s = Some v -> valid_f64 v.
+Proof. exact timeout_parse_valid. Qed.
+Print Assumptions C18_timeout_parse_valid.
+
+Theorem C18_timeout_parse_unparse_parse :
+  forall s v, timeout_parse s = Some v ->
+    (forall u, timeout_unparse v = Some u ->
+       faithful_rendering (fun s => option_map f_denote (timeout_parse s)) u (f_denote v)) /\
+    (f_neg v = false ->
+       exists u, timeout_unparse v = Some u /\
+                 faithful_rendering (fun s => option_map f_denote (timeout_parse s)) u (f_denote v)).
+Proof.
+  intros s v Hp. split; [intros u Hu; exact (timeout_parse_unparse_parse s v u Hp Hu)|].
+  intros Hn. exact (timeout_parse_unparse_total_nonneg s v Hp Hn).
+Qed.
+Print Assumptions C18_timeout_parse_unparse_parse.
+
+(* a NUMBER in halmos.toml (parse_time's int | float arm: str(arg) + "ms") is that many
+   milliseconds, rounded once; for an integer it is what the same digits mean as a string *)
+Theorem C18_timeout_toml_number :
+  (forall i, timeout_parse_int i = f_div (f_of_Z i) (f_of_Z 1000)) /\
+  (forall x, valid_f64 x -> timeout_parse_float x = f_div x (f_of_Z 1000)) /\
+  (forall i, timeout_parse (str_of_Z i) = timeout_parse_int i).
+Proof.
+  split; [exact timeout_parse_int_value|]. split; [exact timeout_parse_float_value|exact timeout_parse_int_as_string].
+Qed.
+Print Assumptions C18_timeout_toml_number.
+
 (* the float library model: float(repr(v)) = v for every float (finite or not), float(str(i)) is
    the float nearest to i *)
 Theorem C18_float_repr_roundtrip : forall v, valid_f64 v -> py_float (float_repr v) = Some v.
@@ -99,6 +130,23 @@ Print Assumptions C18_round_exact.
 Theorem C18_round_representable : forall n d, 0 <= n -> 0 < d -> representable (round_mag n d).
 Proof. exact round_mag_representable. Qed.
 Print Assumptions C18_round_representable.
+
+(* ... and is a nearest one: no representable magnitude k is closer to n / d (distances in units
+   of 1 / (d * 2^1074)), a tie going to the even multiple of the quantum *)
+Theorem C18_round_nearest :
+  forall n d k, 0 <= n -> 0 < d -> representable k ->
+    Z.abs (round_mag n d * d - n * F_UNIT) <= Z.abs (k * d - n * F_UNIT).
+Proof. exact round_mag_nearest. Qed.
+Print Assumptions C18_round_nearest.
+
+Theorem C18_round_tie_even :
+  forall n d, 0 <= n -> 0 < d ->
+    let P := 2 ^ f_shift (n * F_UNIT / d) in
+    let q := n * F_UNIT / d / P in
+    2 * (n * F_UNIT - d * P * q) = d * P ->
+    round_mag n d = (if Z.even q then q else q + 1) * P.
+Proof. exact round_mag_tie_even. Qed.
+Print Assumptions C18_round_tie_even.
 
 (* int(str(n)) = n for every integer (the item codec underneath the CSV options) *)
 Theorem C18_int_literal : forall n, py_int10 (str_of_Z n) = Some n.
